@@ -13,6 +13,8 @@ from .tlc import MachineryError
 
 # property -> (module, rule text, exhaustive?)
 TABLE = {
+    "C13": ("c13", "", None),
+    "C14": ("c14", "", None),
     "C04": ("c04", "", None),
     "C16": ("c16", "cases = every state of Select.tla's bounded space (dumped by TLC) + seeded larger populations; "
                    "distinct = (family, sizes, n, direction, has ties, has infinities)", None),
